@@ -27,9 +27,10 @@
 (* switched on by the constant Dev (a set of names); with Dev = {} the     *)
 (* module is the intended design and all properties hold, with Dev # {}    *)
 (* it is the pinned tree (used to generate the behaviours replayed into    *)
-(* the real generator, so that the rest of such histories is still         *)
-(* checked).  Every Generate step also records the successor the intended  *)
-(* design prescribes (act.ideal), so that a repaired tree is accepted.     *)
+(* the real generator).  The VERDICT about the real generator never uses   *)
+(* that model: ProjectStep.tla evaluates the postconditions below (the     *)
+(* ...P operators) of the intended design on every observed step, and only *)
+(* uses GenResult(D) to NAME the deviation that explains a violating step. *)
 (*                                                                         *)
 (* Tokens are abstract; the harness concretises them (seeded pools of      *)
 (* adversarial Go bodies, doc comments, helper declarations, imports) and  *)
@@ -387,12 +388,14 @@ IdealRecorded == [][GenStep /\ act'.devs # {} => act'.ideal.ok]_vars
 
 (* Explaining an observed (or modelled) post record by named deviations: the smallest D for which the  *)
 (* implementation-level successor GenResult(D) has the same resolver part; Blame(name, D): the members  *)
-(* of D without which the property would hold.                                                          *)
+(* of D that break the property by themselves (else: without which it would hold).                     *)
 ResPart(r) == [meth |-> r.meth, helpers |-> r.helpers, imports |-> r.imports, warn |-> r.warn, ok |-> r.ok]
 Explaining(r) == {D \in SUBSET AllDevs : ResPart(GenResult(D)) = ResPart(r)}
 Smallest(Ds)  == CHOOSE D \in Ds : \A E \in Ds : Cardinality(D) <= Cardinality(E)
 Blame(name, D) ==
-  LET b == {d \in D : Holds(name, GenResult(D \ {d}))} IN IF b = {} THEN D ELSE b
+  LET alone   == {d \in D : ~Holds(name, GenResult({d}))}          \* d by itself breaks the property
+      needed  == {d \in D : Holds(name, GenResult(D \ {d}))}       \* without d the property would hold
+  IN IF alone # {} THEN alone ELSE IF needed # {} THEN needed ELSE D
 
 ----------------------------------------------------------------------------
 (* labelled edges of the state graph for replay into the real generator *)
